@@ -116,7 +116,7 @@ class Contract:
                  modular=False, which=None, props=(), note='', setup=None, result_shape=None, witnesses=(),
                  assume_result=None, ghost=None, exc_ensures=None, max_instances=None, instance_filter=None,
                  pre_state=None, trusted=False, reveal=(), functional=None, inline=(), functional_outputs=1,
-                 prune=False, heavy=False, use=None):
+                 prune=False, heavy=False, use=None, at_calls=None):
         self.key = key
         self.params = params or {}
         self.requires = _clauses(requires, 'requires')
@@ -143,6 +143,10 @@ class Contract:
         self.heavy = heavy
         self.use = use or {}     # {callee key: [labels of the callee's ensures this caller relies on]} (default: all)
         self.inline = tuple(inline)      # callee keys whose bodies are executed here although they have modular contracts
+        # {callee key: [(label, expr[, props])]}: what THIS function must pass to a callee used through its contract.
+        # expr is over the callee's parameter names (the actual arguments) and caller_<name> (the caller's variables
+        # at the call); proved at every such call site (kind 'call-args', role clause)
+        self.at_calls = {k: _clauses(v, 'clause') for k, v in (at_calls or {}).items()}
 
     @property
     def relfile(self):
